@@ -1790,6 +1790,18 @@ private:
                         n = -1 - n;
                         n.write_string(str);
                     }
+                    else // only tags 2 and 3 (bignums) are valid here
+                    {
+                        ec = cbor_errc::invalid_decimal_fraction;
+                        more_ = false;
+                        return;
+                    }
+                }
+                else // a tagged mantissa must be a byte string
+                {
+                    ec = cbor_errc::invalid_decimal_fraction;
+                    more_ = false;
+                    return;
                 }
                 break;
             }
@@ -1956,6 +1968,18 @@ private:
                         n.write_string_hex(str);
                         str[2] = 'x'; // overwrite minus
                     }
+                    else // only tags 2 and 3 (bignums) are valid here
+                    {
+                        ec = cbor_errc::invalid_bigfloat;
+                        more_ = false;
+                        return;
+                    }
+                }
+                else // a tagged mantissa must be a byte string
+                {
+                    ec = cbor_errc::invalid_bigfloat;
+                    more_ = false;
+                    return;
                 }
                 break;
             }
